@@ -48,7 +48,30 @@ pub fn check_accepted(ctx: &mut Ctx, obs: &Obs, src: &str, holes: bool, tag: &st
         }
         C03Verdict::Inconclusive(why) => ctx.inconclusive(why),
         C03Verdict::Violated(kind, msg) => {
-            let key = if d3_applicable(holes, obs) { D3_KEY.to_owned() } else { kind.to_owned() };
+            // The recorded finding is about how unresolved holes travel through substitution. If
+            // gram accepts the *same elaborated term with every hole replaced by its solution*
+            // (no hole left to lose), the finding cannot be what let the program through.
+            let mut key = if d3_applicable(holes, obs) { D3_KEY.to_owned() } else { kind.to_owned() };
+            if key == D3_KEY && kind == "elaborated-term-ill-typed" {
+                let z = elab.zonk();
+                if !z.has_hole() {
+                    let again = crate::fw::guard(|| {
+                        let g = crate::eterm::to_gram(&z);
+                        let (mut tc, mut dc) = (vec![], vec![]);
+                        crate::type_checker::type_check(None, "", &g, &mut tc, &mut dc).is_ok()
+                    });
+                    match again {
+                        Ok(true) => {
+                            ctx.count("d3-attribution-refused:accepted-again-without-holes");
+                            key = format!("{kind}:also-without-holes");
+                        }
+                        Ok(false) => ctx.count("d3-attribution-confirmed:rejected-without-holes"),
+                        Err(_) => ctx.count("d3-attribution-kept:check-without-holes-panicked"),
+                    }
+                } else {
+                    ctx.count("d3-attribution-kept:residual-holes");
+                }
+            }
             viol(ctx, &key, &format!("gram accepted this program but the reference checker rejects what it elaborated ({kind}): {msg}"), src, obs);
         }
     }
